@@ -59,6 +59,7 @@ statement; distinct = distinct hash of (kind, program, sources, environment or s
         ],
         stubbed: vec![
             "getrandom (hash keys per simulated thread)",
+            "Rust global allocator of simulated threads (exact-size LIFO arena: freed addresses are reused at once)",
             "tree-sitter malloc/calloc/realloc/free (seeded layout policies)",
             "thread scheduler (cooperative, seeded)",
             "CancellationFlag (SimFlag)",
@@ -70,11 +71,12 @@ statement; distinct = distinct hash of (kind, program, sources, environment or s
             "probe.b.cancelled_step",
             "probe.b.failed_step_then_success",
             "probe.b.tree_at_recycled_address",
+            "probe.b.other_file_on_same_thread",
             "probe.c.switch_inside_execution",
             "probe.c.cancel_other",
             "probe.c.multi_worker_runs",
         ],
-        fault_kinds: vec!["hash_keys", "layout", "sched", "cancel_at_k", "cancel_other", "exec_error"],
+        fault_kinds: vec!["hash_keys", "layout", "heap_reuse", "sched", "cancel_at_k", "cancel_other", "exec_error"],
     }
 }
 
@@ -85,20 +87,23 @@ pub struct Env {
     pub hash_seed: u64,
     pub policy: Policy,
     pub layout_seed: u64,
+    /// Rust heap of the run's threads: false = system allocator, true = simulated LIFO arena
+    pub lifo_heap: bool,
 }
 
 impl Env {
     fn control() -> Env {
-        Env { hash_seed: CONTROL_HASH, policy: Policy::Compact, layout_seed: 0 }
+        Env { hash_seed: CONTROL_HASH, policy: Policy::Compact, layout_seed: 0, lifo_heap: false }
     }
     fn to_json(&self) -> J {
-        json!({"hash_seed": self.hash_seed, "layout": self.policy.name(), "layout_seed": self.layout_seed})
+        json!({"hash_seed": self.hash_seed, "layout": self.policy.name(), "layout_seed": self.layout_seed, "lifo_heap": self.lifo_heap})
     }
     fn from_json(j: &J) -> Env {
         Env {
             hash_seed: j["hash_seed"].as_u64().unwrap_or(CONTROL_HASH),
             policy: Policy::parse(j["layout"].as_str().unwrap_or("compact")).unwrap_or(Policy::Compact),
             layout_seed: j["layout_seed"].as_u64().unwrap_or(0),
+            lifo_heap: j["lifo_heap"].as_bool().unwrap_or(false),
         }
     }
 }
@@ -156,7 +161,7 @@ fn load_exec_here(text: &str, source: &str, globs: &Globs, lazy: bool, cancel_at
 fn load_exec(text: &str, source: &str, globs: &Globs, lazy: bool, cancel_at: Option<u64>, env: &Env) -> Result<LoadExec, String> {
     alloc::begin_run(env.policy, env.layout_seed);
     let (t, s, g) = (text.to_string(), source.to_string(), globs.clone());
-    entropy::with_hash_seed(env.hash_seed, move || load_exec_here(&t, &s, &g, lazy, cancel_at))
+    entropy::with_thread_env(env.hash_seed, env.lifo_heap, move || load_exec_here(&t, &s, &g, lazy, cancel_at))
 }
 
 pub struct Found {
@@ -219,6 +224,9 @@ pub struct Inputs {
     pub text: String,
     pub sources: Vec<String>,
     pub globs: Globs,
+    /// structural twins of the program (same shapes, different literals, failing at run time):
+    /// other files loaded, executed and dropped on the same thread during a history
+    pub variants: Vec<String>,
 }
 
 fn unused_captures_program(r: &mut Rng) -> String {
@@ -271,8 +279,8 @@ pub fn make_inputs(seed: u64, tier: Tier, ticks: bool) -> Inputs {
         }
     }
     match r.below(10) {
-        0 => Inputs { kind: "unused-captures".into(), text: unused_captures_program(&mut r), sources, globs: vec![] },
-        1 | 2 => Inputs { kind: "multi-fault".into(), text: multi_fault_program(&mut r), sources, globs: vec![] },
+        0 => Inputs { kind: "unused-captures".into(), text: unused_captures_program(&mut r), sources, globs: vec![], variants: vec![] },
+        1 | 2 => Inputs { kind: "multi-fault".into(), text: multi_fault_program(&mut r), sources, globs: vec![], variants: vec![] },
         k => {
             let cfg = gen::GenCfg {
                 ticks,
@@ -281,13 +289,14 @@ pub fn make_inputs(seed: u64, tier: Tier, ticks: bool) -> Inputs {
             };
             let g = gen::gen_program(&mut Rng::sub(seed, "prog"), &cfg);
             let globs = gen::supply_globals(&mut Rng::sub(seed, "globals"), &g.needed_globals);
-            Inputs { kind: "generated".into(), text: g.prog.render(), sources, globs }
+            let variants = (1..=3u32).map(|k| gen::twin(&g.prog, k, true).render()).collect();
+            Inputs { kind: "generated".into(), text: g.prog.render(), sources, globs, variants }
         }
     }
 }
 
 fn inputs_json(i: &Inputs) -> J {
-    json!({"kind": i.kind, "tsg": i.text, "sources": i.sources, "globals": simrun::globs_json(&i.globs)})
+    json!({"kind": i.kind, "tsg": i.text, "sources": i.sources, "globals": simrun::globs_json(&i.globs), "variants": i.variants})
 }
 
 fn inputs_from_json(j: &J) -> Inputs {
@@ -299,6 +308,10 @@ fn inputs_from_json(j: &J) -> Inputs {
             .map(|a| a.iter().filter_map(|x| x.as_str().map(|s| s.to_string())).collect())
             .unwrap_or_default(),
         globs: simrun::globs_from_json(&j["globals"]),
+        variants: j["variants"]
+            .as_array()
+            .map(|a| a.iter().filter_map(|x| x.as_str().map(|s| s.to_string())).collect())
+            .unwrap_or_default(),
     }
 }
 
@@ -307,6 +320,7 @@ fn random_env(r: &mut Rng) -> Env {
         hash_seed: r.next() | 1,
         policy: Policy::ALL[r.below(5)],
         layout_seed: r.next(),
+        lifo_heap: r.chance(1, 2),
     }
 }
 
@@ -367,6 +381,8 @@ pub enum Step {
     Exec { tree: usize, lazy: bool, cancel_at: Option<u64> },
     Reparse { tree: usize },
     Reload,
+    /// load another file (a structural twin), execute it on the same thread, drop it
+    OtherFile { variant: usize, tree: usize, lazy: bool },
 }
 
 fn step_json(s: &Step) -> J {
@@ -374,6 +390,7 @@ fn step_json(s: &Step) -> J {
         Step::Exec { tree, lazy, cancel_at } => json!({"op": "exec", "tree": tree, "lazy": lazy, "cancel_at": cancel_at}),
         Step::Reparse { tree } => json!({"op": "reparse", "tree": tree}),
         Step::Reload => json!({"op": "reload"}),
+        Step::OtherFile { variant, tree, lazy } => json!({"op": "other-file", "variant": variant, "tree": tree, "lazy": lazy}),
     }
 }
 
@@ -385,16 +402,22 @@ fn step_from_json(j: &J) -> Step {
             cancel_at: j["cancel_at"].as_u64(),
         },
         "reparse" => Step::Reparse { tree: j["tree"].as_u64().unwrap_or(0) as usize },
+        "other-file" => Step::OtherFile {
+            variant: j["variant"].as_u64().unwrap_or(0) as usize,
+            tree: j["tree"].as_u64().unwrap_or(0) as usize,
+            lazy: j["lazy"].as_bool().unwrap_or(false),
+        },
         _ => Step::Reload,
     }
 }
 
-fn gen_steps(r: &mut Rng, ntrees: usize, max: usize) -> Vec<Step> {
+fn gen_steps(r: &mut Rng, ntrees: usize, nvariants: usize, max: usize) -> Vec<Step> {
     let n = r.range(2, max);
     (0..n)
-        .map(|_| match r.below(10) {
+        .map(|_| match r.below(12) {
             0 | 1 => Step::Reparse { tree: r.below(ntrees) },
             2 => Step::Reload,
+            10 | 11 if nvariants > 0 => Step::OtherFile { variant: r.below(nvariants), tree: r.below(ntrees), lazy: r.chance(1, 2) },
             _ => Step::Exec {
                 tree: r.below(ntrees),
                 lazy: r.chance(1, 2),
@@ -410,6 +433,7 @@ struct BStats {
     cancelled_steps: u64,
     failed_then_ok: u64,
     recycled: u64,
+    other_files: u64,
     statements: bool,
     transcript: u64,
     discarded: bool,
@@ -429,6 +453,10 @@ fn check_b(inp: &Inputs, steps: &[Step], env: &Env) -> Result<(BStats, Option<Fo
                 st.executions += 1;
                 Some(isolated(inp, *tree, *lazy, *cancel_at)?)
             }
+            Step::OtherFile { variant, tree, lazy } => {
+                st.executions += 1;
+                Some(load_exec(&inp.variants[*variant], &inp.sources[*tree], &inp.globs, *lazy, None, &Env::control())?)
+            }
             _ => None,
         });
     }
@@ -442,7 +470,7 @@ fn check_b(inp: &Inputs, steps: &[Step], env: &Env) -> Result<(BStats, Option<Fo
     }
     alloc::begin_run(env.policy, env.layout_seed);
     let (inp2, steps2, refs2) = (inp.clone(), steps.to_vec(), refs.clone());
-    let r = entropy::with_hash_seed(env.hash_seed, move || -> (BStats, Option<Found>) {
+    let r = entropy::with_thread_env(env.hash_seed, env.lifo_heap, move || -> (BStats, Option<Found>) {
         let mut st = BStats::default();
         let inp = inp2;
         let file = match simrun::load(&inp.text) {
@@ -481,6 +509,32 @@ fn check_b(inp: &Inputs, steps: &[Step], env: &Env) -> Result<(BStats, Option<Fo
                         Err(e) => {
                             return (st, Some(Found { class: "load-result-differs", detail: format!("step {}: re-loading the text failed: {}", i, e) }));
                         }
+                    }
+                }
+                Step::OtherFile { variant, tree, lazy } => {
+                    let other = match simrun::load(&inp.variants[*variant]) {
+                        Ok(f) => f,
+                        Err(e) => {
+                            return (st, Some(Found { class: "load-result-differs", detail: format!("step {}: another file that loads in isolation was rejected here: {}", i, e) }));
+                        }
+                    };
+                    let flag = SimFlag::counting();
+                    simrun::log_clear();
+                    let out = simrun::execute(&other, trees[*tree].as_ref().unwrap(), &inp.sources[*tree], *lazy, &fns, &vars, &flag);
+                    simrun::log_clear();
+                    drop(other);
+                    st.executions += 1;
+                    st.other_files += 1;
+                    th = rng::mix(th, rng::hash_str(&format!("{:?}", out)));
+                    let iso = refs2[i].as_ref().unwrap().outcome.as_ref().unwrap();
+                    if &out != iso {
+                        return (st, Some(Found {
+                            class: "history-result-differs",
+                            detail: format!(
+                                "step {} ({:?}): another file loaded, executed and dropped on the same thread gave {} but in isolation it gives {}",
+                                i, s, out.brief(), iso.brief()
+                            ),
+                        }));
                     }
                 }
                 Step::Exec { tree, lazy, cancel_at } => {
@@ -664,8 +718,9 @@ fn check_c(inp: &Inputs, plan: &Plan, env: &Env) -> Result<(CStats, Option<Found
     let inp_a = Arc::new(inp.clone());
     let plan_a = plan.clone();
     let hash = env.hash_seed;
+    let lifo = env.lifo_heap;
     type WorkerOut = Vec<(Outcome, Vec<Event>, Option<String>)>;
-    let run = entropy::with_hash_seed(hash, move || -> Result<(Vec<WorkerOut>, (u64, u64, u64, Vec<(String, u64)>, bool)), String> {
+    let run = entropy::with_thread_env(hash, lifo, move || -> Result<(Vec<WorkerOut>, (u64, u64, u64, Vec<(String, u64)>, bool)), String> {
         let inp = inp_a;
         let file = simrun::load(&inp.text).map_err(|e| format!("load: {}", e))?;
         let ast0 = canon::cast(&file);
@@ -682,6 +737,7 @@ fn check_c(inp: &Inputs, plan: &Plan, env: &Env) -> Result<(CStats, Option<Found
                         .stack_size(64 << 20)
                         .spawn_scoped(sc, move || -> WorkerOut {
                             entropy::set_thread_hash_seed(wh);
+                            crate::heap::set_thread_active(lifo);
                             sched.start(wi);
                             let _g = FinishGuard(sched, wi);
                             let sp: *const Sched = sched;
@@ -949,7 +1005,7 @@ pub fn run_shard(ctx: &ShardCtx, rep: &mut Report) {
                 }
             }
             "b" => {
-                let steps = gen_steps(&mut r, inp.sources.len(), if ctx.tier == Tier::Quick { 8 } else { 12 });
+                let steps = gen_steps(&mut r, inp.sources.len(), inp.variants.len(), if ctx.tier == Tier::Quick { 8 } else { 12 });
                 let mut env = random_env(&mut r);
                 if r.chance(1, 2) {
                     env.policy = Policy::Reuse;
@@ -968,6 +1024,14 @@ pub fn run_shard(ctx: &ShardCtx, rep: &mut Report) {
                         rep.add("fault.cancel_at_k.fired", st.cancelled_steps);
                         rep.add("probe.b.failed_step_then_success", st.failed_then_ok);
                         rep.add("probe.b.tree_at_recycled_address", st.recycled);
+                        rep.add("probe.b.other_file_on_same_thread", st.other_files);
+                        if env.lifo_heap {
+                            rep.count("fault.heap_reuse.configured");
+                            let (_, reused) = crate::heap::stats();
+                            if reused > 0 {
+                                rep.count("fault.heap_reuse.fired");
+                            }
+                        }
                         rep.run_hashes.push((i, st.transcript));
                         if st.statements {
                             rep.distinct("cases", rng::hash_str(&format!("b{}\u{0}{:?}\u{0}{:?}", inp.text, inp.sources, steps)));
